@@ -1,0 +1,7 @@
+//go:build !verif
+
+package cdcn
+
+func verifSpawn() {}
+func verifEnter() {}
+func verifExit()  {}
